@@ -39,6 +39,15 @@ theorem C02_chains_of_close_levels (h : p.AcceptedCore) (h2 : (2 : K) ≠ 0) :
     p.sr "U†" * p.sr "U" = 1 ∧ p.sr "U" * p.sr "U†" = 1 ∧ star (p.sr "U") = p.sr "U†" ∧ star (p.sr "H_tilde") = p.sr "H_tilde" :=
   ⟨(C02_unitary h.accepted h2).1, (C02_unitary h.accepted h2).2, C02_adjoint h.accepted h2, C02_Htilde_hermitian h.accepted h2⟩
 
+/-- **C02** for every well-formed input with the list form (or the absence) of `fully_diagonalize`, and for masks of the caller that pass the two checks -/
+theorem C02_every_list_form_problem (h : p.InputOK) (h2 : (2 : K) ≠ 0) :
+    p.sr "U†" * p.sr "U" = 1 ∧ p.sr "U" * p.sr "U†" = 1 ∧ star (p.sr "U") = p.sr "U†" ∧ star (p.sr "H_tilde") = p.sr "H_tilde" :=
+  ⟨(C02_unitary h.accepted h2).1, (C02_unitary h.accepted h2).2, C02_adjoint h.accepted h2, C02_Htilde_hermitian h.accepted h2⟩
+theorem C02_every_masked_problem (h : p.MasksOK) (h2 : (2 : K) ≠ 0) :
+    p.sr "U†" * p.sr "U" = 1 ∧ p.sr "U" * p.sr "U†" = 1 ∧ star (p.sr "U") = p.sr "U†" ∧ star (p.sr "H_tilde") = p.sr "H_tilde" :=
+  ⟨(C02_unitary h.accepted h2).1, (C02_unitary h.accepted h2).2, C02_adjoint h.accepted h2, C02_Htilde_hermitian h.accepted h2⟩
+
+example : wlist.sr "U†" * wlist.sr "U" = 1 := (C02_every_list_form_problem wlist_input (by norm_num)).1
 example : wchain.sr "U†" * wchain.sr "U" = 1 := (C02_chains_of_close_levels wchain_core (by norm_num)).1
 example : w2.sr "U†" * w2.sr "U" = 1 ∧ w2.sr "U" * w2.sr "U†" = 1 := C02_unitary w2_accepted (by norm_num)
 example : star (wd.sr "H_tilde") = wd.sr "H_tilde" := C02_Htilde_hermitian wd_accepted (by norm_num)
